@@ -117,8 +117,10 @@ func verifC11_RuntimeReload() {
 	r.reload(vSuper(oldSpec), mapper)
 	verifAssert(vStarts == 1 && vStartedWith == oldSpec && vCloses == 0, "first-load-starts-the-server-with-its-spec")
 
-	newSpec := &Spec{Port: 8080, KeepAlive: true, MaxConnections: 10, Rules: []*Rule{{Paths: []*Path{{PathPrefix: "/", Backend: "new"}}}}}
+	newSpec := &Spec{Port: 8080, KeepAlive: true, MaxConnections: 10, XForwardedFor: true, CacheSize: 7,
+		Rules: []*Rule{{Paths: []*Path{{PathPrefix: "/", Backend: "new"}}}}}
 	restart := false
+	wantMax := uint32(10)
 	switch verifChoose("changedOption", 5) {
 	case 0: // rules only
 	case 1:
@@ -132,6 +134,7 @@ func verifC11_RuntimeReload() {
 		restart = true
 	case 4:
 		newSpec.MaxConnections = 20 // applied to the running listener, no restart
+		wantMax = 20
 	}
 	r.reload(vSuper(newSpec), mapper)
 	verifAssert(r.spec == newSpec, "runtime-holds-the-new-spec")
@@ -148,6 +151,12 @@ func verifC11_RuntimeReload() {
 	std := &http.Request{Method: "GET", Host: "h", URL: &url.URL{Path: "/x"}, Header: http.Header{}, Body: &vReqBody{}, RemoteAddr: "9.9.9.9:1"}
 	m.ServeHTTP(w, std)
 	verifAssert(mapper.nw.calls == 1 && mapper.old.calls == 0, "rules-are-the-new-generations")
+	// ... and so are the options that need no restart: the request is served with the new
+	// generation's xForwardedFor, and the spec the runtime keeps (the next update is compared
+	// with it, the listener is rebuilt from it) still says what was applied
+	verifAssert(mapper.nw.xff == "9.9.9.9", "options-are-the-new-generations")
+	verifAssert(r.spec.XForwardedFor && r.spec.CacheSize == 7 && len(r.spec.Rules) == 1 && r.spec.MaxConnections == wantMax,
+		"applied-spec-is-kept-as-it-was-applied")
 }
 
 // ---- the tracer of a generation ------------------------------------------------------------
